@@ -128,6 +128,8 @@ def _source_of(f):
     for p in f["parts"]:
         if p[0] == "t":
             out.append(p[1])
+        elif p[0] == "c":
+            out.append("{# " + p[1] + " #}")
         else:
             pad = " " * p[2]
             out.append("{{" + pad + p[1] + pad + "}}")
@@ -138,7 +140,7 @@ def _render(f, variables):
     """reference renderer of the restricted grammar: substitution; one trailing newline of the *source* is dropped, one is appended"""
     out = []
     for p in f["parts"]:
-        out.append(p[1] if p[0] == "t" else str(variables[p[1]]))
+        out.append(p[1] if p[0] == "t" else "" if p[0] == "c" else str(variables[p[1]]))  # (a comment renders to nothing)
     text = "".join(out) + f["end"]
     if _source_of(f).endswith("\n"):
         text = text[:-1]
